@@ -429,6 +429,8 @@ def _run(case):
 # step then builds a composite case `history + ops`, which is always run in a fresh interpreter).
 _HISTORY: list = []
 _RERUN_DONE: set = set()
+_STATE = {"contaminated": False, "budget": 30}
+_VERIFY_ALL = False       # set by shrink(): while shrinking (parent process) EVERY failing candidate is confirmed in a fresh interpreter
 _HIST: dict = {}
 HISTORY_KEEP = 40
 PROCESS_CLAUSE = "isolation: process-wide state (the answers depend on what other managers did earlier in this process)"
@@ -478,11 +480,21 @@ def run_impl(case):
         v = _oracle(case, obs)
     except Exception:  # noqa: BLE001
         v = None
-    if v is not None and v["clause"] not in _RERUN_DONE:
+    if v is None:
+        return obs
+    if _VERIFY_ALL or v["clause"] not in _RERUN_DONE or (_STATE["contaminated"] and _STATE["budget"] > 0):
         _RERUN_DONE.add(v["clause"])
+        _STATE["budget"] -= 1
         obs2 = _pristine(case)
-        if _oracle(case, obs2) is not None:
+        v2 = _oracle(case, obs2)
+        if v2 is None or v2["clause"] != v["clause"]:
+            _STATE["contaminated"] = True       # this process no longer behaves like a fresh one
+        if v2 is not None:
             return obs2
+        obs["history_dependent"] = True
+        obs["history"] = hist
+    elif _STATE["contaminated"]:
+        # not confirmed in a fresh interpreter (budget used up): never reported as a self-contained input
         obs["history_dependent"] = True
         obs["history"] = hist
     return obs
@@ -805,6 +817,8 @@ def _drop(case, k):
 
 
 def shrink(case):
+    global _VERIFY_ALL
+    _VERIFY_ALL = True
     hist = case.get("history")
     if hist is None and _key(case) in _HIST:
         # fails only after what this worker process ran before: make that history part of the input
@@ -819,7 +833,11 @@ def shrink(case):
             for j in range(n):
                 yield {**case, "history": hist[:j] + hist[j + 1:]}
         return
-    for k in range(len(case["ops"])):
+    n = len(case["ops"])
+    if n > 6 and not any(op[0] == "add" and op[2][0] == "reuse" for _, _, op in case["ops"]):
+        yield {**case, "ops": case["ops"][: n // 2]}
+        yield {**case, "ops": case["ops"][n // 2:]}
+    for k in range(n):
         c = _drop(case, k)
         if c is not None:
             yield c
